@@ -98,10 +98,17 @@ func populated(seed uint64) (*types.Project, *zsimrt.FS) {
 				vals = append(vals, s.DependsOn[k])
 			}
 			for i, v := range vals {
-				// dependencies point to enabled services with a smaller name (acyclic)
+				// dependencies point to enabled services with a smaller name (acyclic); every other one is optional
 				if i < len(names) && names[i] < n {
+					v.Required = i%2 == 0
 					deps[names[i]] = v
 				}
+			}
+			if len(vals) > 0 && strings.HasPrefix(n, "s") {
+				// an optional dependency on a service that is not enabled
+				v := vals[0]
+				v.Required = false
+				deps["d0"] = v
 			}
 			s.DependsOn = deps
 			for i := range s.EnvFiles {
